@@ -1084,3 +1084,62 @@ Theorem c13_vcf_text_header_whole_stops_at_chrom :
     text_read_header_sw prefix St H init parse_line finish done after (htext (hls ++ [last]) ++ tail) = HOk h tail.
 Proof. exact text_header_whole_sw. Qed.
 Print Assumptions c13_vcf_text_header_whole_stops_at_chrom.
+
+(* ---- deepen10: CUTS INSIDE the VCF header text for the reader that stops behind #CHROM
+   (text_read_header_sw; before this round compared cut by cut only).  For the written lines
+   hls ++ [last] (each starts with the prefix, holds no LF; the parser takes them in order, is
+   `done` behind the last and not before, finish accepts) followed by ANY body (nothing, records,
+   more '#' lines), every cut k: strictly inside the header text, with j (< number of lines)
+   complete lines and a strict prefix t of line j delivered, the result is [text_hdr_cut_result]
+   - a failing source gives its error; a source that ends gives what the parser and finish say
+   about the j lines and (if not empty) t taken as a final line without newline, with NOTHING left
+   unread; from k = |header text| on (the end itself included, whatever the source does there) the
+   written header and the delivered part of the body ---- *)
+From NV Require Import Trunc.TextHeaderSwCutProofs.
+Theorem c13_vcf_text_header_truncation_stops_at_chrom :
+  forall (prefix : N) (St H : Type) (init : St) (parse_line : St -> list N -> option St)
+         (finish : St -> option H) (done : St -> bool) hls last h st body after k,
+    Forall (hline_ok prefix) (hls ++ [last]) ->
+    th_run St parse_line (lines (hls ++ [last])) init = Some st -> done st = true -> finish st = Some h ->
+    not_done_before St init parse_line done (hls ++ [last]) ->
+    let all := hls ++ [last] in
+    let rd := text_read_header_sw prefix St H init parse_line finish done in
+    ((k < length (htext all))%nat ->
+       exists j t, (j < length all)%nat /\ firstn k (htext all) = htext (firstn j all) ++ t /\
+         partial_ok prefix t /\
+         (t = [] \/ exists l u, nth_error all j = Some l /\ l ++ [10] = t ++ u /\ u <> []) /\
+         rd after (firstn k (htext all ++ body)) = text_hdr_cut_result St H init parse_line finish after all j t) /\
+    ((length (htext all) <= k)%nat ->
+       rd after (firstn k (htext all ++ body)) = HOk h (firstn (k - length (htext all)) body)).
+Proof. exact text_header_truncation_sw. Qed.
+Print Assumptions c13_vcf_text_header_truncation_stops_at_chrom.
+
+(* the VERDICT for the function the driver runs for the kinds vcfth / vcfthz
+   (vcf_text_read_header tab nfin = text_read_header_sw with the table parser: state = number of
+   lines taken, line i refused iff (i, line) is in tab, done / finish = nfin lines taken): for a
+   header of nfin written lines none of which the table refuses, followed by any body, a cut
+   strictly inside the header text is an ERROR - the source's error on a failing source (the BGZF
+   layer's UnexpectedEof), InvalidData on a source that ends - with exactly ONE exception: the
+   source ends, the nfin - 1 lines before the last are complete, a NON-EMPTY strict prefix t of the
+   last (#CHROM) line is delivered and the parser does not refuse t as line nfin - 1; then the
+   header built from the partial line is returned with nothing left unread
+   (class text-truncated-header-line-accepted-vcf).  In particular a cut at a line boundary and a
+   cut in any ## line is always an error ---- *)
+Theorem c13_vcf_text_header_cut_verdict :
+  forall tab nfin hls st body after k,
+    Forall (hline_ok 35) hls -> N.of_nat (length hls) = nfin ->
+    th_run N (tab_parse_line tab) (lines hls) 0 = Some st ->
+    (k < length (htext hls))%nat ->
+    exists j t, (j < length hls)%nat /\ firstn k (htext hls) = htext (firstn j hls) ++ t /\
+      (t = [] \/ exists l u, nth_error hls j = Some l /\ l ++ [10] = t ++ u /\ u <> []) /\
+      vcf_text_read_header tab nfin after (firstn k (htext hls ++ body)) =
+        match after with
+        | Stream.Err e => HErr e
+        | Stream.Eof =>
+            if (negb (N.of_nat (S j) =? nfin) ||
+                match t with [] => true | _ => line_refused tab (N.of_nat j) t end)%bool
+            then HErr Stream.InvalidData
+            else HOk nfin []
+        end.
+Proof. exact vcf_text_header_cut_verdict. Qed.
+Print Assumptions c13_vcf_text_header_cut_verdict.
